@@ -302,6 +302,39 @@ Definition scan_region_with step single (a : acscan) (prm : sparams) (vars : lis
                end) (acs_raw a) m1.
 Definition scan_region := scan_region_with var_step scan_single_variable.
 
+(* ------------------------------------------------------------------ per-variable view (C12, C11)
+   What the shared automaton does to ONE variable, written with that variable's data only:
+   the candidates (literal index, widened span) its own atoms produce, in arrival order, folded
+   with `var_step`; raw variables are scanned on their own afterwards. *)
+
+(* the candidate a LiteralInfo yields for the AC hit [hs, he): bounds checks of handle_possible_match *)
+Definition lit_cand (rg : mregion) (hs he : N) (li : lit_info) : list (N * N * N) :=
+  if hs <? li_so li then []
+  else if nlen (rg_mem rg) <? he + li_eo li then []
+  else [(li_lit li, hs - li_so li, he + li_eo li)].
+
+(* candidates of variable vi among the fan-out of a list of AC hits *)
+Definition var_cands (a : acscan) (vi : N) (rg : mregion) (hits : list ac_hit) : list (N * N * N) :=
+  flat_map (fun hit : ac_hit =>
+              let '(p, hs, he) := hit in
+              flat_map (lit_cand rg hs he) (filter (fun li => li_var li =? vi) (fanout a p))) hits.
+
+(* the candidates of a variable compiled alone *)
+Definition own_cands (var : matcher) (rg : mregion) : list (N * N * N) :=
+  let a := acscan_new [var] in
+  var_cands a 0 rg (ac_find_overlapping (acs_pats a) (rg_mem rg)).
+
+(* one region, one variable *)
+Definition scan_var_region (prm : sparams) (var : matcher) (rg : mregion) (vm : list smatch) : list smatch :=
+  let vm1 := fold_left (var_step prm rg var) (own_cands var rg) vm in
+  match mt_literals var with
+  | [] => scan_single_variable prm rg var vm1
+  | _ => vm1
+  end.
+
+Definition scan_var_direct (prm : sparams) (var : matcher) (mem : bytes) : list smatch :=
+  scan_var_region prm var {| rg_start := 0; rg_mem := mem |} [].
+
 (* ------------------------------------------------------------------ scanner/mod.rs: do_memory_scan *)
 
 (* a region as a FragmentedMemory object presents it: described length, fetch failure, fetched bytes *)
@@ -310,6 +343,12 @@ Record fregion := { f_start : N; f_mem : bytes; f_fail : bool; f_described : N }
 Definition empty_matches (vars : list matcher) : list (list smatch) := map (fun _ => []) vars.
 
 (* Memory::Direct *)
+Definition scan_var_fragmented (prm : sparams) (var : matcher) (regions : list fregion) : list smatch :=
+  fold_left (fun vm r =>
+               if f_fail r then vm
+               else scan_var_region prm var {| rg_start := f_start r; rg_mem := f_mem r |} vm)
+            regions [].
+
 Definition scan_direct (prm : sparams) (vars : list matcher) (mem : bytes) : list (list smatch) :=
   scan_region (acscan_new vars) prm vars {| rg_start := 0; rg_mem := mem |} (empty_matches vars).
 
